@@ -21,6 +21,7 @@ RULE = (
     "Hypothesis scripts up to length 12 with overrides, plus long runs: k pendings then a final reply, endless pendings, "
     "silence after a pending for timeouts 0.1/2/20/60 s, a final reply after k silent polls around the silence limit, several pendings whose silences each stay below the limit but add up to more. A reference retry/pending machine written from the statement predicts "
     "outcome, number of transmissions, reconnects; history invariant: no transmission while pending. Virtual time. "
+    "A second request profile (session change with suppress bit that the ECU ignores) runs the same scripts; event w = seconds of silence independent of the polling rhythm, with request timeouts below the poll interval. "
     "Non-trivial: script contains a retry-worthy or pending event. Distinct by (script, max_retry, overrides)."
 )
 ASSUMPTIONS = [
